@@ -143,7 +143,10 @@ func VerifyYouVersionState(prev, curr *types.Header) (err error) {
 	currentRound := curr.Number.Uint64()
 
 	// 1. an upgrade
-	if prev.NextSwitchOn == currentRound {
+	// Only a proposal that reached the threshold is switched to. (With a zero wait the
+	// vote deadline and the switch round coincide; a proposal that failed its vote is
+	// then cleared by case 2.1, exactly as ProcessYouVersionState does.)
+	if prev.NextSwitchOn == currentRound && prev.NextApprovals >= prevProto.UpgradeThreshold {
 		switch {
 		case prev.NextVersion != curr.CurrVersion:
 			err = errors.New("version not upgrade when demands")
@@ -179,14 +182,19 @@ func VerifyYouVersionState(prev, curr *types.Header) (err error) {
 		} else {
 			// 2.2 still on-going
 			isValid = isValid && curr.NextVersion == prev.NextVersion
-			if curr.NextApprovals < prevProto.UpgradeThreshold {
+			isValid = isValid && curr.NextVoteBefore == prev.NextVoteBefore
+			if currentRound < prev.NextVoteBefore {
+				// inside the voting window: this block may add one approval
 				isValid = isValid &&
-					curr.NextVoteBefore == prev.NextVoteBefore &&
-					curr.NextVoteBefore > currentRound
+					(curr.NextApprovals == prev.NextApprovals ||
+						curr.NextApprovals == prev.NextApprovals+1)
+			} else {
+				// the window is closed: no more approvals, and the proposal stays
+				// alive only if it reached the threshold inside the window
+				isValid = isValid &&
+					curr.NextApprovals == prev.NextApprovals &&
+					prev.NextApprovals >= prevProto.UpgradeThreshold
 			}
-			isValid = isValid &&
-				(curr.NextApprovals == prev.NextApprovals ||
-					curr.NextApprovals == prev.NextApprovals+1)
 			isValid = isValid && curr.NextSwitchOn == prev.NextSwitchOn
 		}
 	} else {
